@@ -649,6 +649,17 @@ impl PersistBackend for FilePersist {
     }
 
     fn delete_shard(&self, shard: &str) -> StorageResult<()> {
+        // A crash in the middle of a drop must leave either the whole shard or none of it.
+        // The metadata file is the commit point: batch files without metadata are orphans
+        // that startup removes, but metadata with only some of its batches (or WAL entries
+        // without the batches) would come back as a partial relation.
+        //
+        // Step 0: move buffered updates into a batch file so that the WAL holds nothing for
+        // this shard - replaying such entries after the metadata is gone would resurrect it.
+        if self.shards.read().contains_key(shard) {
+            self.flush(shard)?;
+        }
+
         // Step 1: Remove from in-memory shard map (fast, under write lock)
         let removed_state = {
             let mut shards = self.shards.write();
@@ -657,9 +668,30 @@ impl PersistBackend for FilePersist {
 
         #[cfg(inputlayer_verif)]
         crate::verif_hooks::point("delshard.after_map_remove");
-        // Step 2: Delete batch files FIRST (crash-safe ordering)
-        // If we crash here, metadata still references them but they're gone.
-        // On next startup, load_shards will see missing files and handle gracefully.
+        // Step 2: Delete the metadata file FIRST (atomic commit point of the drop)
+        let meta_path = self
+            .config
+            .path
+            .join("shards")
+            .join(format!("{}.json", sanitize_name(shard)));
+        if meta_path.exists() {
+            let _ = fs::remove_file(&meta_path);
+            sync_directory(&self.config.path.join("shards"));
+        }
+
+        #[cfg(inputlayer_verif)]
+        crate::verif_hooks::point("delshard.after_meta");
+        // Step 3: Selective WAL filter - remove entries appended since the flush above.
+        // Other shards' WAL data is PRESERVED (no need to flush them)
+        {
+            let mut wal = self.wal.lock();
+            wal.remove_shard_entries(shard)?;
+        }
+
+        #[cfg(inputlayer_verif)]
+        crate::verif_hooks::point("delshard.after_wal");
+        // Step 4: Delete the batch files LAST. If we crash here they are orphans (no
+        // metadata references them) and cleanup_orphaned_batches removes them on startup.
         if let Some(ref state) = removed_state {
             let mut deleted_any = false;
             for batch_ref in &state.meta.batches {
@@ -675,27 +707,6 @@ impl PersistBackend for FilePersist {
 
         #[cfg(inputlayer_verif)]
         crate::verif_hooks::point("delshard.after_batches");
-        // Step 3: Selective WAL filter - remove only this shard's entries
-        // Other shards' WAL data is PRESERVED (no need to flush them)
-        {
-            let mut wal = self.wal.lock();
-            wal.remove_shard_entries(shard)?;
-        }
-
-        #[cfg(inputlayer_verif)]
-        crate::verif_hooks::point("delshard.after_wal");
-        // Step 4: Delete metadata file LAST (crash-safe ordering)
-        // After this, the shard is fully removed from disk.
-        let meta_path = self
-            .config
-            .path
-            .join("shards")
-            .join(format!("{}.json", sanitize_name(shard)));
-        if meta_path.exists() {
-            let _ = fs::remove_file(&meta_path);
-            sync_directory(&self.config.path.join("shards"));
-        }
-
         Ok(())
     }
 }
